@@ -189,6 +189,33 @@ def coq_scratch_many(items, timeout=600):
         return list(ex.map(lambda it: coq_scratch(it[0], it[1], timeout), items))
 
 
+def coq_compare(name, requires, cases, shard=300, timeout=900, prelude=''):
+    """Correspondence by evaluation inside Coq (vm_compute).
+
+    cases: list of Coq terms of type bool, each typically `eqb (model input) (what the implementation returned)`.
+    They are evaluated by vm_compute in parallel shards; only the indices evaluating to false are printed and
+    parsed (no parsing of wrapped Coq output).  Returns (bad_indices, failed_shards_log):
+    a shard that does not compile counts all its cases as bad."""
+    shards = [list(range(k, min(k + shard, len(cases)))) for k in range(0, len(cases), shard)]
+    items = []
+    for j, idx in enumerate(shards):
+        t = 'From Coq Require Import ZArith QArith List Bool.\nImport ListNotations.\n' + '\n'.join(requires) + '\n' + prelude + '\n'
+        t += 'Definition cases : list (nat * bool) := [\n' + ';\n'.join('(%d%%nat, %s)' % (i, cases[i]) for i in idx) + '].\n'
+        t += 'Definition bad := map fst (filter (fun p => negb (snd p)) cases).\n'
+        t += 'Eval vm_compute in (length cases, bad).\n'
+        items.append(('%s_cases_%d' % (name, j), t))
+    res = coq_scratch_many(items, timeout)
+    bad, logs = [], []
+    for idx, (ok, out) in zip(shards, res):
+        m = re.search(r'=\s*\((\d+)%?n?a?t?,\s*\[(.*?)\]\)', out.replace('\n', ' '), flags=re.S)
+        if not ok or not m or int(m.group(1)) != len(idx):
+            bad.extend(idx)
+            logs.append(out[-2000:])
+            continue
+        bad.extend(int(x) for x in re.findall(r'\d+', m.group(2)))
+    return sorted(bad), '\n'.join(logs)
+
+
 # --------------------------------------------------------------------------- numbers -> Coq
 
 def zlit(n):
@@ -204,6 +231,18 @@ def rlit(x):
     if d == 1:
         return '(%d)' % n if n < 0 else str(n)
     return '(%d / %d)' % (n, d)
+
+
+def qlit(x):
+    """Exact rational image of a float / int / Fraction as a Coq Q term (n # d)."""
+    from fractions import Fraction
+    fr = Fraction(x)
+    n, d = fr.numerator, fr.denominator
+    return '(%s # %d)' % (('(%d)' % n) if n < 0 else str(n), d)
+
+
+def nlit(n):
+    return '%d%%nat' % int(n)
 
 
 def coq_list(xs, f=zlit):
@@ -292,6 +331,8 @@ class Result:
         self.checker_cmd = ''
         self.notes = []
         self.rng = random.Random(seed)
+        self.classes = {}         # class name -> predicate(input dict) for known_findings.jsonl entries
+        self.known_hits = {}
         mkdirs(REPLAYS)
         for f in os.listdir(REPLAYS):          # replays of earlier runs of this property are stale
             if f.startswith(prop + '-'):
@@ -315,9 +356,41 @@ class Result:
             self.cov['samples'].append(s)
 
     def violation(self, what, **kw):
+        """Record a concrete failing input of the property found on the implementation.
+
+        It is a KNOWN-FINDING (exit 0) only if an *open* entry of known_findings.jsonl for this property names
+        the same failure kind and the entry's class predicate (self.classes[entry['class']], a decidable predicate
+        on the input registered by the property module) accepts this input; anything else is a VIOLATION."""
         d = {'what': what}
         d.update(kw)
-        self.violations.append(d)
+        for e in known_findings(self.prop):
+            if e.get('status') == 'open' and e.get('what') == what:
+                pred = self.classes.get(e.get('class'))
+                try:
+                    if pred is not None and pred(d):
+                        self.known_hits[e['id']] = self.known_hits.get(e['id'], 0) + 1
+                        return False
+                except Exception:
+                    pass
+        if len(self.violations) < 50:
+            self.violations.append(d)
+        return True
+
+    def replay_known(self, still_fails):
+        """Stage E: replay the witness of every open known finding on the implementation.
+        still_fails(entry) -> bool."""
+        for e in known_findings(self.prop):
+            if e.get('status') != 'open':
+                continue
+            try:
+                rep = bool(still_fails(e))
+            except Exception as ex:
+                rep = True
+                self.notes.append('known finding %s: witness raised %r' % (e['id'], ex))
+            if rep:
+                self.known.append('%s: %s' % (e['id'], e.get('description', e.get('what'))))
+            else:
+                sys.stderr.write('note: known finding %s of %s no longer reproduces (replace by a fixed: entry)\n' % (e['id'], self.prop))
 
     def finish(self):
         wall = time.time() - self.t0
@@ -347,7 +420,7 @@ class Result:
                     'checker_cmd': self.checker_cmd or 'make -C /verif/coq (coqc 8.16.1, full .vo build) + coqc on props/%s.v with Print Assumptions' % self.prop,
                     'trusted_base': self.trusted, 'notes': self.notes,
                     'broken_obligations': [b['obligation'] for b in self.broken],
-                    'known_findings_reproduced': self.known})
+                    'known_findings_reproduced': self.known, 'known_finding_class_hits': self.known_hits})
         ev = {'property_id': self.prop, 'tier': self.tier, 'seed': self.seed, 'level': 'proof',
               'coverage': cov, 'assumptions': self.assumptions, 'wall_s': round(wall, 2),
               'violations': len(self.violations) + (1 if (self.broken and not self.violations) else 0)}
@@ -360,6 +433,10 @@ class Result:
         sys.stdout.flush()
         return status
 
+
+TB_NOTE = ('Trusted: Coq 8.16.1 kernel (vm_compute used, native_compute not); no axiom declared by the development, no Admitted; '
+           'axioms under Print Assumptions are only those of Coq Reals / Coquelicot (ClassicalDedekindReals.sig_forall_dec, sig_not_dec, '
+           'FunctionalExtensionality.functional_extensionality_dep, Classical_Prop.classic) for R-valued theorems and none for Z/Q/list theorems; ')
 
 GLOBAL_TRUSTED = [
     'Coq 8.16.1 kernel (coqc); vm_compute is used for bounded lemmas / correspondence evaluation; native_compute is not used',
